@@ -834,6 +834,9 @@ type badgerBatch struct {
 	updatedNodes []updatedNode
 	newRootValue []byte
 
+	// assignedPtrs are the (dirty) node pointers that were given a database pointer by this batch.
+	assignedPtrs []*node.Pointer
+
 	mpLock *sync.Mutex
 }
 
@@ -919,6 +922,7 @@ func (ba *badgerBatch) Commit(root node.Root) error {
 		if err := ba.db.checkRootExists(tx, root); err == nil {
 			// No need to do anything since if the hash matches, everything will be identical and we
 			// would just be duplicating work.
+			ba.assignedPtrs = nil
 			ba.Reset()
 			return ba.BaseBatch.Commit(root)
 		}
@@ -984,6 +988,9 @@ func (ba *badgerBatch) Commit(root node.Root) error {
 	}
 	verifhook.Crash("pathbadger.go:Commit:end")
 
+	// The nodes have been stored under the assigned database pointers.
+	ba.assignedPtrs = nil
+
 	ba.Reset()
 	return ba.BaseBatch.Commit(root)
 }
@@ -996,6 +1003,17 @@ func (ba *badgerBatch) Reset() {
 	if ba.readTxn != nil {
 		ba.readTxn.Discard()
 	}
+
+	// A batch that is abandoned before its nodes were stored (e.g., a commit refused by the database)
+	// must not leave its database pointers behind in nodes that are still dirty: a later batch of the
+	// same tree would take them for assigned and store the nodes under indices (and a version) of the
+	// abandoned batch, colliding with the indices it assigns itself.
+	for _, ptr := range ba.assignedPtrs {
+		if !ptr.Clean {
+			ptr.DBInternal = nil
+		}
+	}
+	ba.assignedPtrs = nil
 
 	ba.writeLog = nil
 	ba.annotations = nil
